@@ -5,7 +5,7 @@ use std::net::SocketAddrV4;
 
 use serde_json::json;
 
-use crate::krpc::Krpc;
+use crate::krpc::{Id, Krpc};
 use crate::props::common::*;
 use crate::props::netkit::*;
 use crate::props::{PropInfo, Property, Report, RunCtx, Tier};
@@ -15,9 +15,12 @@ use crate::sim::*;
 fn run(ctx: &RunCtx) -> Report {
     let mut report = Report::default();
     let mut rng = Rng::new(ctx.seed);
+    // 1 run in 8: slow links, round trips above the initial 500 ms request timeout
+    let slow_links = rng.chance(1, 8);
+    let lat_min = if slow_links { rng.range(260_000, 330_000) } else { 500 };
     let net_cfg = NetCfg {
-        latency_min_us: 500,
-        latency_max_us: rng.range(2_000, 200_000),
+        latency_min_us: lat_min,
+        latency_max_us: if slow_links { lat_min + 60_000 } else { rng.range(2_000, 200_000) },
         ..NetCfg::default()
     };
     let sim = Sim::new(ctx.seed, net_cfg);
@@ -42,12 +45,33 @@ fn run(ctx: &RunCtx) -> Report {
     let net = build(&sim, &mut rng, &plan);
     let all = net.all();
     // every node is asked whether it bootstrapped, as an application would
-    let mut boot_ops = vec![];
+    let mut boot_ops: Vec<(HostId, OpId)> = vec![];
     for h in &all {
         boot_ops.push((*h, sim.bootstrapped(*h)));
     }
     let ids: Vec<OpId> = boot_ops.iter().map(|o| o.1).collect();
-    let done = sim.run_ops(&ids, sim.now() + 120 * SEC);
+    let mut done = sim.run_ops(&ids, sim.now() + 120 * SEC);
+    if slow_links {
+        // the first lookups time out before the adaptive timeout has learned the round trip:
+        // an application asks again; within 90 s every node must report bootstrapped
+        report.probe("slow_link_runs", 1);
+        let deadline = sim.now() + 90 * SEC;
+        for (h, op) in boot_ops.iter_mut() {
+            if *h == net.first {
+                continue;
+            }
+            while !sim.with_op(*op, |o| matches!(o.outcome, Some(Outcome::Bool(true)))) && sim.now() < deadline {
+                *op = sim.bootstrapped(*h);
+                done = sim.run_ops(&[*op], sim.now() + 30 * SEC) && done;
+                if ctx.verbose {
+                    sim.want_snapshot(*h);
+                    sim.run_for(600 * MS);
+                    let s = sim.snapshot(*h);
+                    println!("retry bootstrapped({}) at t={}ms -> {:?} table={:?} queries={:?} timeout={:?}", sim.node_addr(*h), sim.now() / MS, sim.with_op(*op, |o| matches!(o.outcome, Some(Outcome::Bool(true)))), s.as_ref().map(|s| s.routing_table.size), s.as_ref().map(|s| s.iterative_queries.len()), s.as_ref().map(|s| s.socket.request_timeout_ns / MS));
+                }
+            }
+        }
+    }
     sim.run_for(rng.range(1, 20) * SEC);
     refresh_snapshots(&sim, &all);
     let what = format!("{plan:?}");
@@ -143,27 +167,66 @@ fn run(ctx: &RunCtx) -> Report {
                                 }
                             }
                         }
+                        println!("  target {} t0 {:.1}s", hex8(&target), t0 as f64 / 1e9);
+                        sim.with_trace(|tr| {
+                            for d in tr.iter().filter(|d| d.from_host == Some(from) && d.t_send >= t0) {
+                                println!("    sent t={:.3}s -> {} {}", d.t_send as f64 / 1e9, d.dst, Krpc::parse(&d.bytes).map(|k| format!("{:?} target={:?} tid={:?}", k.query_name(), k.target().map(|t| hex8(&t)), k.tid_u32())).unwrap_or_default());
+                            }
+                        });
                         let fs = sim.snapshot(from).unwrap();
                         println!("  lookup node {} id {} table size {} public_address {:?} firewalled {}", sim.node_addr(from), hex8(&fs.id), fs.routing_table.size, fs.public_address, fs.firewalled);
                     }
-                    // is the missed server held by others under an id it no longer has (it re-keyed
-                    // after confirming its public address; the old id keeps its IP's slot)?
+                    // Why can a known server fall out of the 20 candidates? Because some address is
+                    // a candidate twice, under two ids. Two histories produce that:
+                    //  - a server re-keyed after confirming its address and is still held under an
+                    //    id it once announced (open finding), or
+                    //  - a table holds an address under an id that its node never announced.
                     refresh_snapshots(&sim, &all);
-                    let missing = sim.node_addr(*s);
-                    let cur = sim.snapshot(*s).map(|x| x.id);
-                    let stale_holders = all
-                        .iter()
-                        .filter(|h| {
-                            sim.snapshot(**h)
-                                .map(|sn| [&sn.routing_table, &sn.signed_peers_routing_table].iter().any(|t| t.buckets.iter().any(|(_, b)| b.iter().any(|n| n.address == missing && Some(n.id) != cur))))
-                                .unwrap_or(false)
-                        })
-                        .count();
-                    let key = if stale_holders > 0 { "lookup-missed-a-rekeyed-server-held-under-its-old-id" } else { "lookup-missed-a-server" };
+                    let mut announced: BTreeSet<(SocketAddrV4, Id)> = BTreeSet::new();
+                    sim.with_trace(|tr| {
+                        for d in tr.iter() {
+                            if let (Some(h), Some(k)) = (d.from_host, Krpc::parse(&d.bytes)) {
+                                if let Some(id) = k.id() {
+                                    announced.insert((sim.node_addr(h), id));
+                                }
+                            }
+                        }
+                    });
+                    let server_addrs: BTreeSet<SocketAddrV4> = net.servers.iter().map(|h| sim.node_addr(*h)).collect();
+                    let (mut stale_old, mut stale_never) = (0usize, 0usize);
+                    for h in &all {
+                        if let Some(sn) = sim.snapshot(*h) {
+                            for t in [&sn.routing_table, &sn.signed_peers_routing_table] {
+                                for (_, b) in &t.buckets {
+                                    for n in b {
+                                        if !server_addrs.contains(&n.address) {
+                                            continue;
+                                        }
+                                        let cur = net.servers.iter().find(|x| sim.node_addr(**x) == n.address).and_then(|x| sim.snapshot(*x)).map(|x| x.id);
+                                        if Some(n.id) != cur {
+                                            if announced.contains(&(n.address, n.id)) {
+                                                stale_old += 1;
+                                            } else {
+                                                stale_never += 1;
+                                            }
+                                        }
+                                    }
+                                }
+                            }
+                        }
+                    }
+                    let stale_holders = stale_old;
+                    let key = if stale_never > 0 {
+                        "lookup-missed-a-server-tables-hold-ids-nobody-announced"
+                    } else if stale_old > 0 {
+                        "lookup-missed-a-server-rekeyed-servers-held-under-old-ids"
+                    } else {
+                        "lookup-missed-a-server"
+                    };
                     report.violate(
                         "discoverability",
                         key,
-                        format!("a lookup from {} queried {} addresses but not server {} ({} servers in the network; {stale_holders} nodes hold that address under an id it no longer has); {what}", sim.node_addr(from), queried.len(), sim.node_addr(*s), net.servers.len()),
+                        format!("a lookup from {} queried {} addresses but not server {} ({} servers in the network; {stale_holders} table entries hold a server under an id it announced earlier and no longer has, {stale_never} under an id it never announced); {what}", sim.node_addr(from), queried.len(), sim.node_addr(*s), net.servers.len()),
                     );
                     break;
                 }
